@@ -34,11 +34,16 @@ def _failing(cls):
     return Failing
 
 
-def build_block(jb, bits):
+def build_block(jb, bits, shared=None):
+    """`shared` (a dict kept per context / server): sequential blocks with equal initial contents are constructed from the SAME Python
+    list object, as an application does that writes `init = [0] * 100` once and hands it to several blocks; a block owns its cells
+    from then on (the constructor is documented to take start values, not storage)"""
     ov = {a: v for a, v in jb["ov"]}
     conv = (lambda v: bool(v)) if bits else (lambda v: int(v))
     if jb["kind"] == "seq":
         vals = [conv(ov.get(a, jb["def"])) for a in range(jb["start"], jb["start"] + jb["size"])]
+        if shared is not None:
+            vals = shared.setdefault((bits, tuple(vals)), vals)
         cls = _failing(ModbusSequentialDataBlock) if jb["fail"] else ModbusSequentialDataBlock
         return cls(jb["start"], vals)
     # the dictionary is deliberately built in a scrambled (deterministic) key order: nothing may depend on insertion order
@@ -47,18 +52,20 @@ def build_block(jb, bits):
     return cls(vals)
 
 
-def build_context(cfg):
+def build_context(cfg, shared=None):
     """cfg = {zero:0/1, map:{c,d,h,i -> block id}, blocks:{id -> block json}, omit:[tables left to the context's own default]}
     -> (slave context, {id: block}).  A table listed in `omit` is not passed to ModbusSlaveContext at all: the context must then
     provide its documented default (a private, fully populated, zeroed sequential block), which is what the model cfg describes."""
     blocks = {}
     omit = set(cfg.get("omit", []))
+    if shared is None:
+        shared = {}
     for t in TABLES:
         bid = cfg["map"][t]
         if t in omit:
             continue
         if bid not in blocks:
-            blocks[bid] = build_block(cfg["blocks"][bid], bits=t in ("c", "d"))
+            blocks[bid] = build_block(cfg["blocks"][bid], bits=t in ("c", "d"), shared=shared)
     kw = {KW[t]: blocks[cfg["map"][t]] for t in TABLES if t not in omit}
     ctx = ModbusSlaveContext(zero_mode=bool(cfg["zero"]), **kw)
     for t in omit:
